@@ -19,6 +19,7 @@ type pspec struct {
 	pv                string // "" | err | int: the value of the planned panic
 	rg                string // "" | a registered gun factory (real.go)
 	su                string // "" (all instances at once) | step<ms> | inf<ms>
+	blk               string // "" | the call of this pool that blocks and ignores every context (gen3.go)
 }
 
 func basePool() pspec {
@@ -39,6 +40,9 @@ func (p pspec) String() string {
 	}
 	if p.su != "" {
 		s += ",su:" + p.su
+	}
+	if p.blk != "" {
+		s += ",blk:" + p.blk
 	}
 	return s
 }
@@ -397,6 +401,10 @@ func repsOf(weight int, tier string) int {
 		q, t = 8, 32
 	case 7: // many plans of one family, each once
 		q, t = 1, 1
+	case 8: // a call that does not come back (gen3.go); on a tree that waits for it every repetition costs 2 s
+		q, t = 2, 10
+	case 9:
+		q, t = 1, 5
 	}
 	if tier == "thorough" {
 		return t
@@ -424,6 +432,13 @@ func gen(r *rand.Rand, tier string) []string {
 	}
 	emit(systematic())
 	emit(plainRound2())
+	emit(plainRound3())
+	for i := 0; i < nrand/3; i++ {
+		pl := randomBlk(r)
+		for k := 0; k < 2; k++ {
+			out = append(out, line(pl.cancel, k, pl.pools...))
+		}
+	}
 	for i := 0; i < nrand; i++ {
 		pl := randomPlan(r)
 		for k := 0; k < randReps; k++ {
@@ -439,6 +454,7 @@ func gen(r *rand.Rand, tier string) []string {
 	}
 	if scanErr == "" {
 		emit(instrRound2(pointSet(pts), r, tier))
+		emit(instrRound3(pointSet(pts), r, tier))
 	}
 	return out
 }
@@ -466,7 +482,7 @@ func class(input, obs string) string {
 				tags = append(tags, t)
 			case strings.HasSuffix(t, ".ctxw"):
 				tags = append(tags, t)
-			case strings.HasPrefix(t, "rg:") || strings.HasPrefix(t, "su:") || strings.HasPrefix(t, "pv:"):
+			case strings.HasPrefix(t, "rg:") || strings.HasPrefix(t, "su:") || strings.HasPrefix(t, "pv:") || strings.HasPrefix(t, "blk:"):
 				tags = append(tags, t)
 			}
 		}
